@@ -201,6 +201,52 @@ def _guard_containers(ctx, f: Func) -> dict:
     return found
 
 
+def _uncovered_recursive_calls(ctx, f: Func, calls) -> list:
+    """Recursive calls of f that are not preceded, in their own block or an enclosing one, by the guard (a call
+    of the helper that holds the membership/identity test, or the test itself)."""
+    gc = _guard_containers(ctx, f)
+    if not gc:
+        return []
+    helpers = {h.name for _, h in gc.values() if h is not f}
+    tests_inline = any(h is f for _, h in gc.values())
+
+    def is_guard_stmt(st) -> bool:
+        # only a statement that runs unconditionally at this level dominates what follows: a simple statement,
+        # or the test of an if (not something nested in one of its branches)
+        if isinstance(st, (ast.If, ast.While)):
+            st = ast.Expr(value=st.test)
+        elif isinstance(st, (ast.For, ast.Try, ast.With, ast.FunctionDef)):
+            return False
+        for n in ast.walk(st):
+            if isinstance(n, ast.Call) and isinstance(n.func, ast.Name) and n.func.id in helpers:
+                return True
+            if isinstance(n, ast.Call) and isinstance(n.func, ast.Attribute) and n.func.attr in helpers:
+                return True
+            if tests_inline and isinstance(n, ast.Compare) and isinstance(n.ops[0], (ast.In, ast.NotIn)) and isinstance(n.comparators[0], ast.Name) and n.comparators[0].id in gc:
+                return True
+        return False
+
+    out = []
+    for c in calls:
+        covered = False
+        child, p = c, getattr(c, "_parent", None)
+        while p is not None and not covered:
+            for field in ("body", "orelse", "finalbody"):
+                blk = getattr(p, field, None)
+                if isinstance(blk, list) and any(child is x for x in blk):
+                    i = [k for k, x in enumerate(blk) if x is child][0]
+                    if any(is_guard_stmt(x) for x in blk[:i]):
+                        covered = True
+            if isinstance(p, (ast.If, ast.While)) and tests_inline and is_guard_stmt(ast.Expr(value=p.test)):
+                covered = True
+            if p is f.node:
+                break
+            child, p = p, getattr(p, "_parent", None)
+        if not covered:
+            out.append(c)
+    return out
+
+
 def _recursion_guard(f: Func, ctx=None) -> Optional[str]:
     """visited-set / depth-parameter idioms."""
     params = f.params()
@@ -233,7 +279,11 @@ def rule_data_recursion_guarded(ctx, rep, rid: str, only: Optional[Set[str]] = N
                 rep.ok(rid, key, {"bounded_because": BOUNDED_RECURSION[f.qual]})
                 continue
         g = _recursion_guard(f, ctx)
-        if g:
+        unc = _uncovered_recursive_calls(ctx, f, calls) if g and not g.startswith("parameter") else []
+        if g and unc:
+            c = unc[0]
+            rep.bad(rid, key, f"{f.qual} has a cycle/depth guard ({g}) but the recursive call {short(c, 40)} at line {c.lineno} is not preceded by it on its branch: containers of that kind can still close a cycle or nest without bound", f"{f.module.rel}:{c.lineno}")
+        elif g:
             rep.ok(rid, key, {"guard": g})
         else:
             rep.bad(rid, key, f"{f.qual} recurses on script/embedder-controlled structure ({short(calls[0], 50)}) without a visited set or depth guard: cycles or long chains overflow the host stack", f"{f.module.rel}:{calls[0].lineno}")
